@@ -30,6 +30,7 @@
 #include <stdexcept>
 #include <variant>
 #include <cassert>
+#include <charconv>
 #include <cstring>
 
 using namespace UTAP;
@@ -1009,6 +1010,21 @@ std::ostream& expression_t::print_bound_type(std::ostream& os, expression_t e) c
     return os;
 }
 
+/**
+ * Prints a floating point constant so that the scanner reads the same value back: the shortest text that
+ * round-trips, and with a fraction or exponent (a bare "1" would be read as an integer).
+ */
+static std::ostream& print_double(std::ostream& os, double value)
+{
+    char buffer[32];
+    const auto res = std::to_chars(buffer, buffer + sizeof(buffer), value);
+    const auto text = std::string_view(buffer, static_cast<size_t>(res.ptr - buffer));
+    os << text;
+    if (text.find_first_of(".en") == std::string_view::npos)  // no fraction, no exponent, not inf / nan
+        os << ".0";
+    return os;
+}
+
 /** Prints "; N" for an explicit number of runs of an SMC query, nothing if it was left out (encoded as -1). */
 static std::ostream& print_number_of_runs(std::ostream& os, const expression_t& runs)
 {
@@ -1132,7 +1148,7 @@ std::ostream& expression_t::print(std::ostream& os, bool old) const
         get(2).print(os, old);
         print_number_of_runs(os, get(0));
         os << (flag ? "]([] " : "](<> ");
-        get(3).print(os, old) << ") >= " << get(4).get_double_value();
+        print_double(get(3).print(os, old) << ") >= ", get(4).get_double_value());
         break;
 
     case PROBA_BOX: flag = true; [[fallthrough]];
@@ -1281,7 +1297,7 @@ std::ostream& expression_t::print(std::ostream& os, bool old) const
     case CONSTANT:
 
         if (get_type().is(Constants::DOUBLE)) {
-            os << get_double_value();
+            print_double(os, get_double_value());
         } else if (get_type().is_string()) {
             os << std::quoted(get_string_value());  // as read by make_constant(const std::string&)
         } else if (get_type().is_integer()) {
